@@ -6,6 +6,8 @@ import pkgutil
 import signal
 import warnings
 
+import re
+
 import numpy as np
 
 from .. import vlib
@@ -274,6 +276,14 @@ FLAVOURS = ["random", "random", "grid", "duplicates", "constant_feature", "all_e
 # ---------------------------------------------------------------------------------------------
 # exploration shared by C01 and C02
 
+def err_sig(err):
+    """what failed, without the numbers: the first words of the exception message (part of a finding's key, so that another
+    exception of the same type in the same method is a different finding)"""
+    msg = err.split(":", 1)[1] if ":" in err else err
+    words = re.findall(r"[A-Za-z_]+", msg)
+    return "-".join(w.lower() for w in words[:4]) or "no-message"
+
+
 def has_duplicate_candidates(data, cand, cs):
     """Do two candidates have identical feature rows?"""
     try:
@@ -345,7 +355,7 @@ def eval_case(ctx, prop, spec, case, data, cand, cs, ncols, lines, checks):
         ctx.case((spec.name, case["mode"], b, seed, case["n"]), nontriv, sample=dict(sample, result="ERR " + r["err"]))
         ctx.count("query_raised")
         if prop == "C01":
-            k = "non-termination" if r["err"] == "non-termination" else "raises:" + r["err"].split(":")[0]
+            k = "non-termination" if r["err"] == "non-termination" else "raises:" + r["err"].split(":")[0] + "/" + err_sig(r["err"])
             if k.startswith("raises") and has_duplicate_candidates(data, cand, cs):
                 k += "/duplicated-candidate-points"    # precondition class (part of the key a known finding is matched by)
             ctx.violate(finding_key("C01", spec, k), f"{spec.name}.query raised on a valid input: {r['err']}", case)
